@@ -171,7 +171,7 @@ def argmin(ctx) -> None:
     ctx.ob("ARGMIN", "candidates", f.loc(), ok_elem,
            "each candidate is minimize_bandwidth_impl(|M|, start permutation)" if ok_elem else
            "the candidate generator does not apply minimize_bandwidth_impl to every start permutation")
-    sym = any(e.kind == "assert" and "is_symmetric" in show(e.value) for e in p.events)
+    sym = any("is_symmetric" in show(c) and t for c, t in p.cond_log)
     ctx.ob("ARGMIN", "symmetric input required", f.loc(), sym,
            "a non-symmetric matrix is rejected" if sym else "the symmetry assertion on the input matrix is gone")
     # the improvement loop
